@@ -198,3 +198,11 @@ Example ex_synrule_default_skeleton :
   option_map (fun a => (a_hc (iG a), a_hc (iH a), i_hp a)) (label ex_rc_s 1%N) = Some (1, 0, Some [1%N]) /\
   option_map (fun a => (a_hc (iG a), a_hc (iH a), i_hp a)) (label ex_rc_s 3%N) = Some (0, 1, Some [1%N]).
 Proof. vm_compute. repeat split; reflexivity. Qed.
+Definition ex_m_s : mapping := [(1%N, 2%N); (3%N, 3%N)].
+Definition ex_T_s : its := match glue ex_host_h ex_rc_s ex_m_s with Some t => t | None => LG [] [] end.
+Example ex_default_changed_bonds :
+  wf_hostb ex_host_h = true /\ wf_rcb ex_rc_s = true /\ match_rcb ex_host_h ex_rc_s ex_m_s = true /\
+  glue ex_host_h ex_rc_s ex_m_s = Some ex_T_s /\ changed_bonds ex_T_s = [] /\
+  option_map (fun a => (a_hc (iG a), a_hc (iH a))) (label ex_T_s 2%N) = Some (1, 0) /\
+  option_map (fun a => (a_hc (iG a), a_hc (iH a))) (label ex_T_s 3%N) = Some (3, 4).
+Proof. vm_compute. repeat split; reflexivity. Qed.
